@@ -146,7 +146,7 @@ def run(ctx, res):
     work.driver_ok = ctx.driver_ok
     corr.merge(res, corr.parallel(work, tasks))
     from .C01 import small_modulus_sweep
-    small_modulus_sweep(res, hierarchy=True)
+    small_modulus_sweep(res, hierarchy=True, driver_ok=ctx.driver_ok)
     res.rule = ("reflection over every exception class of webauthn.helpers.exceptions; every fault and fault combination of the C01-C04 "
                 "catalogues across formats and algorithms (the response stays well-formed, so the rejection is semantic) must raise a "
                 "subclass of the base exception; arbitrary byte strings through parse_cbor/encode_cbor; distinct = the case tuple")
